@@ -126,6 +126,7 @@ func runC05() {
 		emit(p)
 	}, c.Thorough())
 	longNumbers()
+	nestedSpecials()
 	// deep stacks: all (k, n) when thorough; quick keeps every k up to n = 65 and a reduced set of k beyond (these
 	// programs cost n*(k+n) on both sides and were two thirds of the harness's running time)
 	interpgen.DeepStacksSel(func(p *interpgen.Program) { emit(p) }, func(k, n int) bool {
